@@ -51,6 +51,10 @@ CHECKS.update({
     "C12": dict(technique=_CONN_TECH + "; dispatch slice MC_Connection_dispatch.cfg (action property DispatchExact with re-entrant subscriber scripts) and type-id sweeps with a wildcard subscriber", text="Closed-form 'registered at that moment' delivery, replies to peer requests, no effect of undefined ids and protocol error on undecodable payloads model-checked; id sweeps (all protocol ids, undefined ids incl. 0, both framings, payload classes) and subscriber scripts run on the real connection and validated by TLC.", design="§3.5, §6 C12", note=_CONN_NOTE + " Expected class per id comes from the text of api.proto via an independent reader."),
 })
 
+CHECKS.update({
+    "C19": dict(technique="TLA+ spec Client.tla (client pointer, connect phases, pending disconnects, API gate) model-checked by TLC (NeverWedged, RefusedOnlyWhenBusy, OneLive, GateSound); stage-by-stage disturbance histories, API gate sweeps over the whole public surface and random multi-session histories executed on the real APIClient in the virtual-time loop; traces validated by TLC against TraceClient.tla", text="Design invariants model-checked over all histories of <= 3 connections; on the real client every row (pointer identity, state of every connection object, outcomes, writes of refused calls) must be a step of the specification, so a pointer left on a dead connection or a gate that lets a call through is a rejected trace.", design="§3.6, §6 C19", note="finish_connection without a successful start_connection is outside the domain; a start issued while an abandoned attempt is still unwinding may be refused. " + TB),
+})
+
 NOT_YET = {}
 
 
